@@ -3,7 +3,7 @@ import datetime
 from implutil import call
 
 ID = 'C05'
-TRANSLATOR = []
+TRANSLATOR = ['drange']
 COQ_EXEC = ['exec.X_bdays']
 COQ_IMPORTS = 'From PB Require Import model.M_cal model.M_bdays.\n'
 PER_FILE = 6
@@ -126,6 +126,10 @@ class Runner:
         e = self.o.adjust(d, eff_adj(a, self.case['adj']))
         if e is not None and r != e:
             self.bad('adjust(%s, %r) = %s, the nearest business day by that convention is %s' % (D(d).date(), a, D(r).date(), D(e).date()))
+        elif e is None and self.o.inside(d) and self.o.inside(r) and (not self.o.isb(r) or eff_adj(a, self.case['adj']) != 'm'):
+            # no business day exists in that direction inside the calendar: a result inside [t0, t1] cannot be "the nearest business day"
+            self.bad('adjust(%s, %r) = %s lies inside the calendar but %s' % (D(d).date(), a, D(r).date(),
+                     'is not a business day' if not self.o.isb(r) else 'no business day exists on that side of %s up to the end of the calendar' % D(d).date()))
         return r
     def add_raw(self, a, d, n):
         """('ok', ordinal) | (errname, None) | ('OutOfFuel', None) when the call would not return"""
